@@ -48,8 +48,14 @@ class SSA3000X(QMI_Instrument):
         _logger.info("Opening connection to instrument")
         self._transport.open()
 
-        time.sleep(self._TIMEOUT)
-        self._transport.discard_read()  # discard welcome message
+        try:
+            time.sleep(self._TIMEOUT)
+            self._transport.discard_read()  # discard welcome message
+        except Exception:
+            # Close the transport if an error occurred during initialization
+            # of the instrument.
+            self._transport.close()
+            raise
 
         super().open()
 
